@@ -102,10 +102,13 @@ impl Family for C06 {
       }
       let input = Json::obj(vec![("op", Json::str("probe")), ("a", Json::Int(1)), ("in", inner)]);
       // all(k): predicate family of pipe.rs - k = 1 means "even"
-      let cause = if rng.below(2) == 0 { Json::obj(vec![("op", Json::str("contains")), ("a", Json::Int(hit)), ("in", input)]) } else { Json::obj(vec![("op", Json::str("all")), ("a", Json::Int(1)), ("in", input)]) };
+      // take_while(k = 1: "while even") lets its source go before it completes downstream: there the
+      // subscriber makes the source emit again from inside the completion's delivery
+      let which = rng.below(3);
+      let cause = if which == 0 { Json::obj(vec![("op", Json::str("contains")), ("a", Json::Int(hit)), ("in", input)]) } else if which == 1 { Json::obj(vec![("op", Json::str("all")), ("a", Json::Int(1)), ("in", input)]) } else { Json::obj(vec![("op", Json::str("take_while")), ("a", Json::Int(1)), ("in", input)]) };
       let p = Json::obj(vec![("op", Json::str("probe")), ("a", Json::Int(0)), ("in", cause)]);
       let order = gen_order(rng, &sources, 1);
-      let re = vec![Json::obj(vec![("on", Json::str("next")), ("do", Json::Int(rng.below(sources.len() as u64) as i64))])];
+      let re = vec![Json::obj(vec![("on", Json::str(if which == 2 { "terminal" } else { "next" })), ("do", Json::Int(rng.below(sources.len() as u64) as i64))])];
       return spec_to_json(p, &sources, &order, vec![("reenter", Json::Arr(re))]);
     }
     let shape_amb_unbounded_loser = rng.below(30) == 0;
@@ -295,8 +298,9 @@ impl Family for C06 {
             };
             if let Some(s_at) = satisfied {
               // the emissions in progress at that instant (possibly nested) may still run; later ones are judged.
-              // contains / all tear their source down *before* they deliver the verdict, so there even an
-              // emission attempted from inside the verdict's delivery is already judged
+              // contains / all tear their source down *before* they deliver the verdict (take_while: before
+              // it completes downstream), so there even an emission attempted from inside that delivery
+              // is already judged
               // - provided the verdict was caused by an item travelling down: while an upstream
               // *terminal* is travelling down, the stages above are in the middle of their own
               // completion (they have already dropped their upstream registrations and sweep the
@@ -316,7 +320,7 @@ impl Family for C06 {
                 n.get("multi").and_then(|x| x.as_str()) == Some("merge") && n.a("ins").iter().all(direct_input)
               }
               let direct = cause.get("in").and_then(|p1| p1.get("in")).map_or(false, direct_input);
-              let horizon = if (cop == "contains" || cop == "all") && direct && only_items_in_progress && s_at > r.subscribe_returned { s_at } else { horizon(s_at) };
+              let horizon = if (cop == "contains" || cop == "all" || cop == "take_while") && direct && only_items_in_progress && s_at > r.subscribe_returned { s_at } else { horizon(s_at) };
               for i in &below {
                 let l = r.src_logs[*i].lock().unwrap();
                 if let Some(e) = l.emits.iter().find(|e| e.seq_start > horizon && e.sub_before) {
